@@ -1,7 +1,7 @@
 // Command harness drives the real mvdan/sh packages (built from /repo's working
 // tree, -tags verif) on vectors produced by TLC. Protocol: `harness <engine> [args] <in.ndjson>`
 // reads one JSON vector per line and writes one JSON result per line to stdout.
-package main
+package hlib
 
 import (
 	"bufio"
@@ -12,15 +12,16 @@ import (
 	"strings"
 )
 
-type engineFn func(vec json.RawMessage, args []string) (any, error)
+type EngineFn func(vec json.RawMessage, args []string) (any, error)
 
-var engines = map[string]engineFn{}
+var engines = map[string]EngineFn{}
 
-func register(name string, fn engineFn) { engines[name] = fn }
+// Register adds an engine.
+func Register(name string, fn EngineFn) { engines[name] = fn }
 
 // text converts the spec's text representation (array of 1-char strings, symbolic
 // names, or ints meaning raw bytes) into a Go string.
-func text(a []any) string {
+func Text(a []any) string {
 	var sb strings.Builder
 	for _, c := range a {
 		switch c := c.(type) {
@@ -43,7 +44,7 @@ var symbolic = map[string]string{
 }
 
 // untext is the inverse of text for results: one element per byte for non-ASCII safety.
-func untext(s string) []any {
+func Untext(s string) []any {
 	out := make([]any, 0, len(s))
 	for _, r := range s {
 		out = append(out, string(r))
@@ -51,15 +52,16 @@ func untext(s string) []any {
 	return out
 }
 
-func texts(a []any) []string {
+func Texts(a []any) []string {
 	out := make([]string, len(a))
 	for i, e := range a {
-		out[i] = text(e.([]any))
+		out[i] = Text(e.([]any))
 	}
 	return out
 }
 
-func main() {
+// Main is the entry point shared by all harness binaries.
+func Main() {
 	if len(os.Args) < 3 {
 		fmt.Fprintln(os.Stderr, "usage: harness <engine> [args] <in.ndjson>")
 		os.Exit(2)
@@ -96,10 +98,10 @@ func main() {
 }
 
 // safeCall runs one vector; a panic in the code under test is a result, not a crash.
-func safeCall(fn engineFn, vec json.RawMessage, args []string) (res any) {
+func safeCall(fn EngineFn, vec json.RawMessage, args []string) (res any) {
 	defer func() {
 		if r := recover(); r != nil {
-			res = map[string]any{"panic": fmt.Sprint(r), "stack": trimStack(string(debug.Stack()))}
+			res = map[string]any{"panic": fmt.Sprint(r), "stack": TrimStack(string(debug.Stack()))}
 		}
 	}()
 	out, err := fn(vec, args)
@@ -109,7 +111,7 @@ func safeCall(fn engineFn, vec json.RawMessage, args []string) (res any) {
 	return out
 }
 
-func trimStack(s string) string {
+func TrimStack(s string) string {
 	lines := strings.Split(s, "\n")
 	var keep []string
 	for _, l := range lines {
